@@ -23,6 +23,13 @@ def asan(prop, inner):
             "tiers": ("thorough",), "optional": True, "timeout_s": 4000}
 
 
+def miri(prop, inner):
+    """E6: a socket-free engine at tiny volume inside the Miri interpreter (thorough tier only)."""
+    return {"name": f"miri:{inner}", "kind": "cmd",
+            "cmd": ["python3", "{verif}/py/miri_engine.py", prop, inner, "{seed}", "{out}"],
+            "tiers": ("thorough",), "optional": True, "timeout_s": 4000, "floor": (1, 2)}
+
+
 L_EXPL = "held on the executions explored: generated cases compared one by one with an independent reference model; no claim beyond the generated space"
 
 PROPS = {
@@ -35,6 +42,7 @@ PROPS = {
         "engines": [
             {"name": "c01-router"},
             {"name": "c01-live"},
+            miri("C01", "c01-router"),
         ],
         "assumptions": ASSUME_COMMON,
     },
@@ -46,6 +54,7 @@ PROPS = {
         "technique": "runtime monitoring: conflict reference model vs real register() (Ok/Err/panic via catch_unwind) over generated registration sequences, order permutations, reachability probes",
         "engines": [
             {"name": "c02-registration"},
+            miri("C02", "c02-registration"),
         ],
         "assumptions": ASSUME_COMMON,
     },
@@ -60,6 +69,7 @@ PROPS = {
             {"name": "c03-spellings"},
             {"name": "c03-router"},
             {"name": "c03-live"},
+            miri("C03", "c03-spellings"),
         ],
         "assumptions": ASSUME_COMMON,
     },
@@ -73,6 +83,7 @@ PROPS = {
             {"name": "c05-exhaustive"},
             {"name": "c05-random"},
             {"name": "c05-live"},
+            miri("C05", "c05-random"),
         ],
         "assumptions": ASSUME_COMMON,
     },
@@ -166,6 +177,7 @@ PROPS = {
         "technique": "runtime monitoring: document-vs-model and document-vs-router comparison on generated APIs, reference resolution walk, byte-equality metamorphic checks (twice / permuted order / other process)",
         "engines": [
             {"name": "c06-openapi"},
+            miri("C06", "c06-openapi"),
         ],
         "assumptions": ASSUME_COMMON,
     },
